@@ -218,29 +218,20 @@ Fixpoint collect_fields (vf : bytes -> fline) (ls : list bytes) : option fields 
 (* ---------- framing decision ---------- *)
 Inductive framing := FrLen (n : Z) | FrChunked.
 
-(* fixTransferEncoding on the FIRST Transfer-Encoding value only; "identity" stops the scan *)
-Fixpoint te_scan (encs : list bytes) (n : Z) : option Z :=
-  match encs with
-  | [] => Some n
-  | e :: r =>
-    let e' := to_lower (go_trim e) in
-    if bytes_eqb e' s_identity then Some n
-    else if bytes_eqb e' s_chunked then te_scan r (n + 1) else None
-  end.
-(* None = error; Some true = chunked; Some false = no transfer coding *)
-Definition bfe_te (h : fields) : option bool :=
+(* fixTransferEncoding (after fix a604fb2): exactly one Transfer-Encoding field and its value, trimmed
+   (textproto.TrimString) and ASCII-lower-cased, is "chunked".  This is also what RFC 7230 3.3.3 leaves to a
+   recipient that implements only the chunked coding (anything else is 400 / 501).
+   None = rejected; Some true = chunked; Some false = no Transfer-Encoding *)
+Definition te_decision (h : fields) : option bool :=
   match get_all s_te h with
   | [] => Some false
-  | raw0 :: _ =>
-    match te_scan (split_byte 44 raw0) 0 with
-    | None => None
-    | Some n => if 1 <? n then None else Some (n =? 1)
-    end
+  | [v] => if bytes_eqb (to_lower (trim4 v)) s_chunked then Some true else None
+  | _ => None
   end.
 (* Content-Length = 1*DIGIT below 2^63 (ParseUint(cl, 10, 63)) *)
 Definition parse_cl (cl : bytes) : option Z :=
   match parse_dec cl with Some n => if n <? 2^63 then Some n else None | None => None end.
-(* fixLength after the fix: all Content-Length values must be equal (TrimString); first one decides *)
+(* fixLength (after fix 17390c5): all Content-Length values must be equal (TrimString); first one decides *)
 Definition cl_consistent (cls : list bytes) : bool :=
   match cls with
   | [] => true
@@ -257,36 +248,33 @@ Definition bfe_trailer_ok (h : fields) : bool :=
   forallb (fun k => let k' := canon_key (go_trim k) in
                     negb (bytes_eqb k' s_te || bytes_eqb k' s_trailer || bytes_eqb k' s_cl))
           (match raw with [] => [] | _ => split_byte 44 raw end).
-(* inl code = rejected: 7 transfer coding, 8 content length, 9 trailer *)
+(* inl code = rejected: 7 transfer coding, 8 content length (conflicting, empty (fix e9e83bf), not 1*DIGIT,
+   >= 2^63), 9 trailer *)
 Definition bfe_frame (h : fields) : Z + framing :=
-  match bfe_te h with
+  match te_decision h with
   | None => inl 7
   | Some true => if bfe_trailer_ok h then inr FrChunked else inl 9
   | Some false =>
     let cls := get_all s_cl h in
-    if cl_consistent cls then
-      match cl_first cls with
-      | [] => if bfe_trailer_ok h then inr (FrLen 0) else inl 9
-      | cl => match parse_cl cl with
-              | Some n => if bfe_trailer_ok h then inr (FrLen n) else inl 9
-              | None => inl 8
-              end
-      end
-    else inl 8
+    match cls with
+    | [] => if bfe_trailer_ok h then inr (FrLen 0) else inl 9
+    | _ =>
+      if cl_consistent cls then
+        match parse_cl (cl_first cls) with
+        | Some n => if bfe_trailer_ok h then inr (FrLen n) else inl 9
+        | None => inl 8
+        end
+      else inl 8
+    end
   end.
 
-(* RFC 7230 3.3.3: Transfer-Encoding (all lines, combined) must be exactly "chunked" (the only coding
-   this recipient implements; anything else is 400/501); otherwise every Content-Length value must be
-   the same 1*DIGIT; no field: no body. *)
-Definition te_tokens (h : fields) : list bytes :=
-  map (fun e => to_lower (go_trim e)) (concat (map (split_byte 44) (get_all s_te h))).
+(* RFC 7230 3.3.3: Transfer-Encoding must be exactly "chunked" (the only coding this recipient implements);
+   otherwise every Content-Length value must be the same 1*DIGIT; no field: no body. *)
 Definition ref_frame (h : fields) : Z + framing :=
-  if has_key s_te h then
-    match te_tokens h with
-    | [t] => if bytes_eqb t s_chunked then inr FrChunked else inl 7
-    | _ => inl 7
-    end
-  else
+  match te_decision h with
+  | None => inl 7
+  | Some true => inr FrChunked
+  | Some false =>
     let cls := get_all s_cl h in
     match cls with
     | [] => inr (FrLen 0)
@@ -294,25 +282,30 @@ Definition ref_frame (h : fields) : Z + framing :=
       if cl_consistent cls then
         match parse_dec (cl_first cls) with Some n => inr (FrLen n) | None => inl 8 end
       else inl 8
-    end.
+    end
+  end.
 
 (* ---------- validators ---------- *)
 Record validators := {
   v_method : bytes -> bool;
   v_version : bytes -> bool;
-  v_leadws : bool;                     (* accept a first header line that begins with SP / HTAB *)
-  v_field : bytes -> fline;
+  v_field : bytes -> fline;            (* one (joined) header line, while the block is read *)
+  v_names : fields -> bool;            (* check applied to the complete block afterwards *)
   v_frame : fields -> Z + framing }.
+Definition names_ok (fs : fields) : bool := forallb (fun kv => is_token (fst kv)) fs.
+(* BFE as coded: method must be a token (fix a2f18b3), version as ParseHTTPVersion, textproto collects the
+   lines leniently (any name, empty name skipped), then ReadRequest rejects non-token names (fix 9b4c453) *)
 Definition V_bfe : validators :=
-  {| v_method := fun _ => true; v_version := bfe_version_ok; v_leadws := true;
-     v_field := bfe_field; v_frame := bfe_frame |}.
+  {| v_method := is_token; v_version := bfe_version_ok;
+     v_field := bfe_field; v_names := names_ok; v_frame := bfe_frame |}.
 Definition V_ref : validators :=
-  {| v_method := is_token; v_version := ref_version_ok; v_leadws := false;
-     v_field := ref_field; v_frame := ref_frame |}.
+  {| v_method := is_token; v_version := ref_version_ok;
+     v_field := ref_field; v_names := fun _ => true; v_frame := ref_frame |}.
 
 Record reqmeta := { r_method : bytes; r_target : bytes; r_proto : bytes; r_fields : fields; r_framing : framing }.
 
-(* error codes: 1 unexpected EOF, 2 request line, 4 version, 5 target, 6 header line, 7 8 9 framing, 98 target not modelled *)
+(* error codes: 1 unexpected EOF, 2 request line / method, 4 version, 5 target, 6 header block (line without
+   colon, or first line starts with SP/HTAB: fix fe4368d), 12 field name, 7 8 9 framing, 98 target not modelled *)
 Definition validate (V : validators) (hd : head) : Z + reqmeta :=
   match parse_request_line (h_reqline hd) with
   | None => inl 2
@@ -321,11 +314,12 @@ Definition validate (V : validators) (hd : head) : Z + reqmeta :=
     else if negb (v_version V p) then inl 4
     else if target_class m t =? 0 then inl 98
     else if target_class m t =? 3 then inl 5
-    else if h_leadws hd && negb (v_leadws V) then inl 6
+    else if h_leadws hd then inl 6
     else match collect_fields (v_field V) (h_lines hd) with
     | None => inl 6
     | Some fs =>
       if negb (h_complete hd) then inl 1
+      else if negb (v_names V fs) then inl 12
       else match v_frame V fs with
       | inl c => inl c
       | inr fr => inr {| r_method := m; r_target := t; r_proto := p; r_fields := fs; r_framing := fr |}
@@ -353,8 +347,9 @@ Definition parse_hex_line (l : bytes) : option Z :=
 Definition read_trailer (r : bytes) : option bytes :=
   match r with
   | 13 :: 10 :: r' => Some r'
-  | _ :: _ :: _ =>
-    if contains s_crlfcrlf r then
+  | x :: _ :: _ =>
+    if is_space x then None                      (* ReadMIMEHeader: first line starts with SP/HTAB *)
+    else if contains s_crlfcrlf r then
       let '(ls, c, rest) := read_lines (length r) r [] in
       match collect_fields bfe_field ls with
       | Some _ => if c then Some rest else None
@@ -432,40 +427,23 @@ Definition bfe_final_fields (h : fields) (fr : framing) : fields :=
             | FrChunked => del_key s_cl h3
             | FrLen _ =>
               let cls := get_all s_cl h3 in
-              let h' := match cls with _ :: _ :: _ => dedupe_cl (trim4 (hd [] cls)) false h3 | _ => h3 end in
-              match cl_first cls with [] => del_key s_cl h' | _ => h' end
+              match cls with _ :: _ :: _ => dedupe_cl (trim4 (hd [] cls)) false h3 | _ => h3 end
             end in
   match get_first s_trailer h4 with [] => h4 | _ => del_key s_trailer h4 end.
 
-(* ---------- divergence classes (known findings) as predicates on one request head ---------- *)
-Definition ws_before_colon (kv : bytes) : bool :=
-  match line_key kv with
-  | Some k => match rev k with x :: _ => is_space x | [] => false end
-  | None => false
-  end.
-Definition nontoken_key (kv : bytes) : bool :=
-  match line_key kv with Some k => negb (is_token k) | None => false end.
-(* Transfer-Encoding present, the combined coding list is not exactly "chunked", yet BFE's scan accepts *)
-Definition te_div (h : fields) : bool :=
-  has_key s_te h &&
-  negb (match te_tokens h with [t] => bytes_eqb t s_chunked | _ => false end) &&
-  match bfe_te h with Some _ => true | None => false end.
-(* Content-Length present (no chunked coding) whose first value is empty after trimming *)
-Definition empty_cl (h : fields) : bool :=
-  has_key s_cl h && match cl_first (get_all s_cl h) with [] => true | _ => false end.
+(* ---------- remaining divergence classes (known findings) as predicates on one request head ---------- *)
+(* id 2: a header line with an empty field name (": v"): textproto skips it silently *)
+Definition emptyname_line (kv : bytes) : bool :=
+  match line_key kv with Some [] => true | _ => false end.
+(* id 5: version accepted by ParseHTTPVersion that is not HTTP/DIGIT.DIGIT *)
+Definition lax_version (p : bytes) : bool := bfe_version_ok p && negb (ref_version_ok p).
 Definition head_class (hd : head) : Z :=
   match parse_request_line (h_reqline hd) with
   | None => 0
   | Some (m, t, p) =>
-    if (negb (is_token m) || (bfe_version_ok p && negb (ref_version_ok p))) then 5
-    else if h_leadws hd then 4
-    else if existsb ws_before_colon (h_lines hd) then 1
-    else if existsb nontoken_key (h_lines hd) then 2
-    else match collect_fields bfe_field (h_lines hd) with
-         | None => 0
-         | Some fs => if te_div fs then 3
-                      else if negb (has_key s_te fs) && empty_cl fs then 6 else 0
-         end
+    if lax_version p then 5
+    else if existsb emptyname_line (h_lines hd) then 2
+    else 0
   end.
 (* class of the first request head (in BFE's reading of the stream) that falls in a class *)
 Fixpoint stream_class (fuel : nat) (s : bytes) {struct fuel} : Z :=
